@@ -190,6 +190,7 @@ pub fn scenario(p: P) -> Arc<dyn Fn() + Send + Sync> {
             let mut counts = std::collections::BTreeMap::new();
             for e in &ev {
                 match e {
+                    Event::Req { .. } | Event::FirstUnwind { .. } => {}
                     Event::Enter { .. } => {}
                     Event::Read { dep, val, .. } => {
                         let want = r.eval(&prog, rig::key_of_dep(*dep));
@@ -251,6 +252,184 @@ pub fn scenario(p: P) -> Arc<dyn Fn() + Send + Sync> {
             drop(eng);
         });
     })
+}
+
+
+// ---------------------------------------------------------------------------
+// fan-in far above the 1024-element threshold of the cached key-to-set map
+// ---------------------------------------------------------------------------
+
+#[derive(Clone, Debug)]
+pub struct W {
+    pub name: &'static str,
+    /// engine over the real caches + write-behind + MemKv (else in-memory)
+    pub db: bool,
+    pub cache: u64,
+    /// callers registered sequentially before the concurrent phase
+    pub pre: u16,
+    /// let the pipeline drain after the `pre` callers
+    pub drain: bool,
+    /// further callers registered after the drain (their batches are still in
+    /// the pipeline when the concurrent phase starts)
+    pub tail: u16,
+    /// style of the callee
+    pub callee: Style,
+    pub tasks: usize,
+    /// no physical commit from the start of the concurrent phase until the
+    /// next session has been committed (new backward edges exist only in the
+    /// staging area of the too-large set while dirtiness is propagated)
+    pub hold: bool,
+}
+
+pub fn scenario_wide(w: W) -> Arc<dyn Fn() + Send + Sync> {
+    use crate::pq::{QW, WIDE_RUNS};
+    Arc::new(move || {
+        let w = w.clone();
+        shuttle::future::block_on(async move {
+            ystore::set_yield_mask(0);
+            xplore::exploring(false);
+            let prog = Program { nodes: vec![n(w.callee, Body::Id(Dep::In(0)))] };
+            let sh = Shared::new(prog);
+            // generic over the two engine configurations
+            macro_rules! body {
+                ($eng:expr, $store:expr) => {{
+                    let eng = $eng;
+                    let store: Option<crate::memkv::Shared> = $store;
+                    {
+                        let mut s = eng.input_session().await;
+                        s.set_input(QIn(0), 1).await;
+                        s.commit().await;
+                    }
+                    {
+                        let te = eng.clone().tracked().await;
+                        for i in 0..w.pre {
+                            let v = te.query(&QW(i)).await;
+                            if v != 1 {
+                                xplore::report_violation(format!("pre-query QW({i}) = {v}, from scratch 1"));
+                            }
+                        }
+                    }
+                    if w.drain {
+                        crate::hist::drain_pipeline();
+                    }
+                    {
+                        let te = eng.clone().tracked().await;
+                        for i in w.pre..w.pre + w.tail {
+                            let v = te.query(&QW(i)).await;
+                            if v != 1 {
+                                xplore::report_violation(format!("pre-query QW({i}) = {v}, from scratch 1"));
+                            }
+                        }
+                    }
+                    // ---------------- concurrent phase ----------------
+                    if let (true, Some(st)) = (w.hold, &store) {
+                        st.lock().unwrap().hold = true;
+                    }
+                    ystore::set_yield_mask(ystore::Y_SET);
+                    xplore::exploring(true);
+                    let res: Arc<Mutex<Vec<(usize, Val)>>> = Arc::new(Mutex::new(Vec::new()));
+                    let mut hs = Vec::new();
+                    for t in 0..w.tasks {
+                        let (eng, res) = (eng.clone(), res.clone());
+                        let key = QW(w.pre + w.tail + t as u16);
+                        hs.push(shuttle::future::spawn(async move {
+                            let te = eng.clone().tracked().await;
+                            let v = te.query(&key).await;
+                            res.lock().unwrap().push((t, v));
+                        }));
+                    }
+                    for h in hs {
+                        let _ = h.await;
+                    }
+                    xplore::exploring(false);
+                    ystore::set_yield_mask(0);
+                    for (t, v) in res.lock().unwrap().iter() {
+                        if *v != 1 {
+                            xplore::report_violation(format!("task {t}: new caller = {v}, from scratch 1"));
+                        }
+                    }
+                    // ---------------- lost-invalidation detector ----------------
+                    {
+                        let mut s = eng.input_session().await;
+                        s.set_input(QIn(0), 2).await;
+                        s.commit().await;
+                    }
+                    if let Some(st) = &store {
+                        st.lock().unwrap().hold = false;
+                    }
+                    let before = WIDE_RUNS.with(|c| c.get());
+                    let te = eng.clone().tracked().await;
+                    let total = w.pre + w.tail + w.tasks as u16;
+                    // newest callers first
+                    for i in (0..total).rev() {
+                        let v = te.query(&QW(i)).await;
+                        if v != 2 {
+                            xplore::report_violation(format!(
+                                "after the next session: caller QW({i}) of {total} = {v}, from scratch 2 (lost invalidation)"
+                            ));
+                            break;
+                        }
+                    }
+                    let reran = WIDE_RUNS.with(|c| c.get()) - before;
+                    if reran > total as u64 {
+                        xplore::report_violation(format!("{reran} caller activations for {total} callers in one epoch"));
+                    }
+                    drop(te);
+                    xplore::observe(format!("{reran}"));
+                    drop(eng);
+                }};
+            }
+            if w.db {
+                let store = crate::memkv::new_state(crate::memkv::Grouping::UpTo(8), false);
+                body!(rig::new_db_engine(&sh, store.clone(), w.cache, 1).await, Some(store));
+            } else {
+                body!(rig::new_mem_engine_opt(&sh, true).await, None);
+            }
+        });
+    })
+}
+
+pub fn wide_params(thorough: bool) -> Vec<(W, usize)> {
+    let mk = |name, db, cache, pre, tail, callee, tasks| W {
+        name,
+        db,
+        cache,
+        pre,
+        drain: true,
+        tail,
+        callee,
+        tasks,
+        hold: false,
+    };
+    let mut v = vec![
+        // exactly at the threshold in the store, two concurrent new callers only staged (commits held)
+        (mk("wide-db-1024+2-held", true, 4, 1024, 0, Style::N, 2), 1),
+        // above the threshold in the store, entry not resident (spilled scan + staging), firewall callee
+        (mk("wide-db-1030+2-firewall", true, 2, 1030, 0, Style::F, 2), 1),
+        // above the threshold, entry resident and marked too large (streaming + staging), commits held
+        (mk("wide-db-1030+2-resident-held", true, 4096, 1030, 0, Style::N, 2), 1),
+    ];
+    v[0].0.hold = true;
+    v[2].0.hold = true;
+    if thorough {
+        v.push((mk("wide-db-1021+2undrained+2", true, 4, 1021, 2, Style::N, 2), 1));
+        v.push((mk("wide-mem-1030+2", false, 0, 1030, 0, Style::N, 2), 2));
+        v.push((mk("wide-db-1025+3", true, 4, 1025, 0, Style::N, 3), 2));
+        v.push((mk("wide-db-1022+2undrained+2", true, 64, 1022, 2, Style::N, 2), 2));
+        v.push((mk("wide-mem-1100+3", false, 0, 1100, 0, Style::N, 3), 2));
+    }
+    v
+}
+
+pub fn child_wide(idx: usize) {
+    let thorough = crate::report::tier() == "thorough";
+    let (w, d) = wide_params(thorough)[idx].clone();
+    let mut cfg = xplore::Cfg::new(d);
+    cfg.max_failures = 10;
+    // the set-up alone (1000+ queries on the cached engine) is ~200 000 steps
+    cfg.max_steps = 2_000_000;
+    let o = xplore::explore_parallel(&cfg, crate::report::threads(), scenario_wide(w));
+    crate::report::emit_child_result(&o.to_json());
 }
 
 fn keys(v: &[u8]) -> Vec<Key> { v.iter().map(|j| Key::C(*j)).collect() }
@@ -464,6 +643,29 @@ pub fn check() -> i32 {
         rep.sample(json!({"scenario": p_json(p), "bound": d,
                           "schedules": o.executions}));
     }
+    for (idx, (w, d)) in wide_params(thorough).iter().enumerate() {
+        let Some(o) = crate::report::explore_isolated(&mut rep, "c02w", idx, w.name, thorough) else {
+            continue;
+        };
+        rep.evaluations += o.executions;
+        rep.distinct_nontrivial += o.sigs;
+        scen.push(json!({"scenario": format!("{w:?}"), "bound": d, "schedules": o.executions, "steps": o.steps,
+            "max_depth": o.max_depth, "distinct_outcomes": o.outcomes, "failures": o.failures.len(), "cap": o.cap_hit}));
+        if let Some(c) = &o.cap_hit {
+            rep.cap(format!("{}: {c}", w.name));
+        }
+        if let Some(m) = o.machinery_error {
+            rep.machinery_errors.push(m);
+        }
+        for f in &o.failures {
+            rep.violation(Violation {
+                what: format!("{} {:?}: {}", w.name, f.kind, f.msg),
+                tags: vec![format!("{:?}", f.kind)],
+                replay: json!({"check": "c02w", "thorough": thorough, "scenario_index": idx,
+                    "schedule": sched_json(&f.schedule)}),
+            });
+        }
+    }
     rep.extra.insert("scenarios".into(), json!(scen));
     rep.finish()
 }
@@ -479,6 +681,15 @@ pub fn child(idx: usize) {
 
 pub fn replay(v: &Value) -> i32 {
     let thorough = v["thorough"].as_bool().unwrap_or(false);
+    if v["check"].as_str() == Some("c02w") {
+        let (w, _) = wide_params(thorough)[v["scenario_index"].as_u64().unwrap() as usize].clone();
+        let s = sched_from_json(&v["schedule"]);
+        let o = xplore::replay(&s, scenario_wide(w));
+        for f in &o.failures {
+            println!("replayed failure: {}", f.msg);
+        }
+        return i32::from(!o.failures.is_empty());
+    }
     let (p, _) =
         params(thorough)[v["scenario_index"].as_u64().unwrap() as usize].clone();
     let s = sched_from_json(&v["schedule"]);
